@@ -79,7 +79,7 @@ MCExtraAll  == SUBSET {"cs", "o", "m", "pl", "tp"}
 \* {"tp", "tp2"}: TWO installed plugins provide the name (on different lines): no winner is named, but every feature must
 \* pick the same one
 MCExtraFew  == {{}, {"cs"}, {"pl", "tp"}, {"tp", "tp2"}}
-MCUseKinds  == {"tp", "fp", "um", "uc", "pm", "ip"}
+MCUseKinds  == {"tp", "fp", "um", "uc", "pm", "ip", "ipm"}
 \* "tt": two tests of one file request the name (every usage of a file must be judged on its own)
 MCUseTP     == {"tp", "fp", "tt"}
 MCUFiles    == {"u", "c2"}
@@ -134,6 +134,9 @@ UseItems(uk) ==
       \* indirect parametrize STACKED ABOVE a usefixtures mark on one function (the renderer writes the parametrize
       \* decorator first): the usages of one function are then recorded out of line order (mark, indirect, parameter)
       [] uk = "ip" -> <<TestM("test_1", <<"n">>, <<"n">>, <<>>, <<"n">>)>>
+      \* SEVERAL names in one indirect parametrize string, the judged name NOT first ("w,n"): all of them are recorded with
+      \* the whole string's span, the cursor stands on one name's own characters
+      [] uk = "ipm" -> <<TestM("test_1", <<>>, <<>>, <<>>, <<"w", "n">>)>>
 
 WsOf(c) ==
     [f \in MCFiles |->
